@@ -5,11 +5,11 @@ use super::*;
 /// C10 bit_mapping: the in-memory probe (u64 words) and the on-file probe (bytes of the little-endian serialized
 /// words, what bincode writes for Vec<u64>) address the same bit for every index.
 #[kani::proof]
-#[kani::unwind(4)]
+#[kani::unwind(3)]
 fn c10_bit_mapping_mem_vs_file() {
     let bits_count: usize = kani::any();
-    kani::assume(bits_count >= 1 && bits_count <= 130);
-    let words: [u64; 3] = kani::any();
+    kani::assume(bits_count >= 1 && bits_count <= 70);
+    let words: [u64; 2] = kani::any();
     let bv = AtomicBitVec::from_raw_slice(&words, bits_count).expect("enough words");
     let i: usize = kani::any();
     kani::assume(i < bits_count);
@@ -26,7 +26,7 @@ fn c10_bit_mapping_mem_vs_file() {
     assert!(raw.len() == AtomicBitVec::items_count(bits_count));
     assert!(raw[i / 64] == words[i / 64]);
     kani::cover!(bits_count == 65 && i == 64, "first bit of the second word");
-    kani::cover!(bits_count == 129 && i == 128, "third word");
+    kani::cover!(bits_count == 70 && i == 69, "last bit of a partial word");
     kani::cover!(i % 8 == 7 && mem, "high bit of a byte set");
     std::mem::forget(raw);
     std::mem::forget(bv);
@@ -34,11 +34,11 @@ fn c10_bit_mapping_mem_vs_file() {
 
 /// C10: set(i) makes get(i) true and leaves every other bit unchanged; items_count is ceil(bits/64).
 #[kani::proof]
-#[kani::unwind(4)]
+#[kani::unwind(3)]
 fn c10_bitvec_set_get() {
     let bits_count: usize = kani::any();
-    kani::assume(bits_count >= 1 && bits_count <= 130);
-    let words: [u64; 3] = kani::any();
+    kani::assume(bits_count >= 1 && bits_count <= 70);
+    let words: [u64; 2] = kani::any();
     let bv = AtomicBitVec::from_raw_slice(&words, bits_count).expect("enough words");
     let i: usize = kani::any();
     let j: usize = kani::any();
@@ -56,12 +56,12 @@ fn c10_bitvec_set_get() {
 
 /// C10: or_with is the bitwise union (merged group filters never lose a bit) and refuses different sizes.
 #[kani::proof]
-#[kani::unwind(4)]
+#[kani::unwind(3)]
 fn c10_bitvec_or_with_union() {
     let n: usize = kani::any();
-    kani::assume(n >= 1 && n <= 130);
-    let a: [u64; 3] = kani::any();
-    let b: [u64; 3] = kani::any();
+    kani::assume(n >= 1 && n <= 70);
+    let a: [u64; 2] = kani::any();
+    let b: [u64; 2] = kani::any();
     let mut x = AtomicBitVec::from_raw_slice(&a, n).expect("ok");
     let y = AtomicBitVec::from_raw_slice(&b, n).expect("ok");
     let i: usize = kani::any();
@@ -71,7 +71,7 @@ fn c10_bitvec_or_with_union() {
     assert!(r.is_ok());
     assert!(x.get(i) == (xa || yb));
     let m: usize = kani::any();
-    kani::assume(m <= 130 && m != n);
+    kani::assume(m <= 70 && m != n);
     let z = AtomicBitVec::from_raw_slice(&b, m).expect("ok");
     assert!(x.or_with(&z).is_err());
     kani::cover!(!xa && yb, "bit only in the other filter");
